@@ -2,7 +2,7 @@
 import gen_gin as G
 import gen_stmts as S
 import gindom
-from gindom import to_driver, compare  # noqa: F401
+from gindom import to_driver  # noqa: F401
 
 ID = 'C16'
 DOMAIN = 'gin/stmts'
@@ -339,14 +339,136 @@ def gen_located_case(rng):
   return c
 
 
+# dynamic registration: the offending statement names its configurable through the file's own imports.  The root name
+# may be imported while an attribute further down the dotted name does not exist (`mod.nope.y = 2`, a block header
+# `mod.nope:`, a missing method of a class), the root name may be unknown, or the configurable exists and the
+# parameter does not.  The statement sits 0-2 include levels below the entry point (a bindings string or a file):
+# whatever the exception, it names the file and the line of the offending statement and of every include statement on
+# the way, once each; the statements before took effect and those after did not.  A finite table on real files.
+DYNLOC_SHAPES = ('missing_attr_bind', 'missing_attr_scoped', 'missing_attr_block', 'missing_method', 'missing_attr_deep',
+                 'unknown_root', 'unknown_root_block', 'unknown_param', 'unknown_param_block')
+DYNLOC_CASES = []
+for _shape in DYNLOC_SHAPES:
+  for _depth in (0, 1, 2):
+    for _top in ('string', 'file'):
+      _i = len(DYNLOC_CASES)
+      DYNLOC_CASES.append({'dom': 'gin', '_kind': 'dynloc', 'shape': _shape, 'depth': _depth, 'top': _top, 'idx': _i,
+                           'imp': ('plain', 'as', 'from')[_i % 3], 'pre': (_i // 2) % 3, 'pad': (_i // 3) % 3,
+                           'ops': [], '_nregs': 0, '_fault': 'dynloc:' + _shape})
+
+
+def run_dynloc_case(case):
+  import os
+  import re
+  import shutil
+  import sys
+  import tempfile
+  import core
+  gin = core.fresh_gin()
+  root = tempfile.mkdtemp(prefix='c16dyn-')
+  pkg, depth = 'c16dynpkg%d' % case['idx'], case['depth']
+  os.makedirs(os.path.join(root, pkg))
+  open(os.path.join(root, pkg, '__init__.py'), 'w').close()
+  with open(os.path.join(root, pkg, 'mod.py'), 'w') as f:
+    f.write('def fn(x=0, y=0):\n  return x, y\n\n\nclass K:\n  def __init__(self, p=0):\n    self.p = p\n\n'
+            '  def m(self, a=0):\n    return a\n')
+  imp, name = {'plain': ('import %s.mod' % pkg, pkg + '.mod'), 'as': ('import %s.mod as dm' % pkg, 'dm'),
+               'from': ('from %s import mod' % pkg, 'mod')}[case['imp']]
+  fault = {'missing_attr_bind': name + '.nope.y = 2', 'missing_attr_scoped': 'a/b/' + name + '.nope.y = 2',
+           'missing_attr_block': name + '.nope:\n  y = 2\n  x = 4', 'missing_method': name + '.K.nope.a = 2',
+           'missing_attr_deep': name + '.nope.K.m.a = 2',
+           'unknown_root': 'zz_unknown.fn.y = 2', 'unknown_root_block': 'zz_unknown.fn:\n  y = 2',
+           'unknown_param': name + '.fn.nope = 2', 'unknown_param_block': name + '.fn:\n  nope = 2'}[case['shape']]
+  head = ['# the innermost file'] * case['pad'] + ['from __gin__ import dynamic_registration', imp, '']
+  pre = [name + '.fn.x = 1', 'PRE = 1'][:case['pre']]
+  lines = head + pre
+  fault_line = len(lines) + 1
+  lines += [fault, name + '.fn.y = 3', 'AFTER = 1']
+  texts = ['\n'.join(lines) + '\n']
+  # innermost first: the line of the statement (for a member of a block that cannot be applied: of the member, the
+  # header being in order), then of each include
+  want = [fault_line + (case['shape'] == 'unknown_param_block')]
+  for lvl in range(depth):
+    fn = os.path.join(root, 'lvl%d.gin' % lvl)
+    with open(fn, 'w') as f:
+      f.write(texts[-1])
+    padding = ['# level %d' % lvl] * ((case['pad'] + lvl) % 3)
+    outer = padding + (['from __gin__ import dynamic_registration'] if (lvl + case['idx']) % 2 else []) + ['BEFORE%d = 1' % lvl]
+    want.append(len(outer) + 1)
+    texts.append('\n'.join(outer + ["include '%s'" % fn, 'AFTER%d = 1' % lvl]) + '\n')
+  files = [os.path.join(root, 'lvl%d.gin' % lvl) for lvl in range(depth)]
+  if case['top'] == 'file':
+    files.append(os.path.join(root, 'top.gin'))
+    with open(files[-1], 'w') as f:
+      f.write(texts[-1])
+  else:
+    files.append(None)
+  facts = {'want_chain': [[('lvl%d.gin' % i if i < depth else 'top.gin') if fn else None, ln]
+                          for i, (fn, ln) in enumerate(zip(files, want))]}
+  saved_path = list(sys.path)
+  sys.path.insert(0, root)
+  try:
+    try:
+      if case['top'] == 'file':
+        gin.parse_config_file(files[-1])
+      else:
+        gin.parse_config(texts[-1])
+      facts['outcome'] = 'ok'
+    except SyntaxError as e:
+      facts['outcome'], facts['msg'] = 'SyntaxError', str(e)[:300]
+    except Exception as e:  # pylint: disable=broad-except
+      facts['outcome'], facts['msg'] = type(e).__name__, str(e)[:600]
+      facts['chain'] = [[os.path.basename(m.group(1)) if m.group(1) is not None else None, int(m.group(2))]
+                        for m in re.finditer(r'In (?:file "([^"]*)",|bindings string) line (\d+)', str(e))]
+    seen = {}
+    for key in ['%PRE', '%AFTER', 'fn.x', 'fn.y'] + ['%' + b + str(l) for b in ('BEFORE', 'AFTER') for l in range(depth)]:
+      try:
+        seen[key] = gin.query_parameter(key)
+      except Exception:  # pylint: disable=broad-except
+        pass
+    facts['store'] = seen
+    facts['want_store'] = dict([('fn.x', 1), ('%PRE', 1)][:case['pre']] + [('%' + 'BEFORE%d' % l, 1) for l in range(depth)])
+    facts['state'] = [gin.config_is_locked(), gin.current_scope_str()]
+  finally:
+    sys.path[:] = saved_path
+    for m in [m for m in sys.modules if m == pkg or m.startswith(pkg + '.')]:
+      del sys.modules[m]
+    shutil.rmtree(root, ignore_errors=True)
+  return {'out': [], 'facts': facts}
+
+
+def dynloc_oracle(case, f):
+  what = (f'dynamic registration, {case["shape"]} ({case["imp"]} import) {case["depth"]} include level(s) below a '
+          f'{case["top"]}')
+  if f.get('outcome') in ('ok', 'SyntaxError'):
+    return f'{what}: the offending statement gave {f.get("outcome")} {f.get("msg", "")}'
+  if sorted(map(repr, f.get('chain', []))) != sorted(map(repr, f['want_chain'])):
+    return (f'{what}: the {f["outcome"]} names the locations {f.get("chain")}; the statement and the include statements '
+            f'leading to it begin at {f["want_chain"]} (innermost first), each to be named once. Message: {f.get("msg")!r}')
+  if f['store'] != f['want_store']:
+    return f'{what}: after the failed parse {f["store"]} is set; exactly the statements before the fault give {f["want_store"]}'
+  if f['state'] != [False, '']:
+    return f'{what}: lock/scope after the failed parse: {f["state"]}'
+  return None
+
+
 def gen_cases(rng, tier, boost=1):
+  yield from DYNLOC_CASES
   n = (600 if tier == 'quick' else 20000) * boost
   for k in range(n):
     yield gen_located_case(rng) if k % 8 == 7 else (gen_locked_case(rng) if k % 16 == 3 else (
         gen_unlock_case(rng) if k % 16 == 11 else gen_case(rng)))
 
 
+def compare(case, impl, model):
+  if case.get('_kind') == 'dynloc':
+    return None
+  return gindom.compare(case, impl, model)
+
+
 def run_impl(case):
+  if case.get('_kind') == 'dynloc':
+    return run_dynloc_case(case)
   out = gindom.run_impl(case)
   if case.get('_kind') in ('located', 'unlock_parse'):
     return out
@@ -361,6 +483,8 @@ def run_impl(case):
 
 
 def oracle(case, impl):
+  if case.get('_kind') == 'dynloc':
+    return dynloc_oracle(case, impl['facts'])
   if case.get('_kind') == 'unlock_parse':
     n = case['_nregs']
     fin, before, after = impl['out'][n], impl['out'][n + 1], impl['out'][-2]
@@ -415,7 +539,7 @@ def oracle(case, impl):
 
 
 def nontrivial(case, impl):
-  if case.get('_kind') == 'unlock_parse':
+  if case.get('_kind') in ('unlock_parse', 'dynloc'):
     return True
   if case.get('_kind') == 'located':
     return len(case['ops'][0]['present']) >= 2
@@ -423,6 +547,9 @@ def nontrivial(case, impl):
 
 
 def tally(stats, case, impl):
+  if case.get('_kind') == 'dynloc':
+    stats['dynloc'] = stats.get('dynloc', 0) + 1
+    return
   if case.get('_kind') == 'unlock_parse':
     stats['unlock_parse'] = stats.get('unlock_parse', 0) + 1
     return
